@@ -2,10 +2,10 @@ package main
 
 import (
 	"bytes"
-	"net"
 	"encoding/json"
 	"fmt"
 	"io"
+	"net"
 	"net/http"
 	"net/http/httptest"
 	"os"
@@ -245,11 +245,11 @@ type memConn struct {
 	closed bool
 }
 
-func (c *memConn) Read(b []byte) (int, error)  { return c.r.Read(b) }
-func (c *memConn) Write(b []byte) (int, error) { return c.w.Write(b) }
-func (c *memConn) Close() error                { c.closed = true; return nil }
-func (c *memConn) LocalAddr() net.Addr         { return memAddr{} }
-func (c *memConn) RemoteAddr() net.Addr        { return memAddr{} }
+func (c *memConn) Read(b []byte) (int, error)       { return c.r.Read(b) }
+func (c *memConn) Write(b []byte) (int, error)      { return c.w.Write(b) }
+func (c *memConn) Close() error                     { c.closed = true; return nil }
+func (c *memConn) LocalAddr() net.Addr              { return memAddr{} }
+func (c *memConn) RemoteAddr() net.Addr             { return memAddr{} }
 func (c *memConn) SetDeadline(time.Time) error      { return nil }
 func (c *memConn) SetReadDeadline(time.Time) error  { return nil }
 func (c *memConn) SetWriteDeadline(time.Time) error { return nil }
@@ -402,7 +402,7 @@ func (w *srvWorld) checkPublic(m *srvModel) (sig, what string) {
 		if rep.Key != pk || rep.Offset != m.Offset {
 			return "public/sync-header", fmt.Sprintf("sync for id %d: key/offset %x/%d, model %x/%d", id, rep.Key[:4], rep.Offset, pk[:4], m.Offset)
 		}
-		if !glow.Verify(w.Srv.Pub, rep.Signed, rep.Sig) {
+		if !refVerify(w.Srv.Pub, rep.Signed, rep.Sig) {
 			return "public/sync-signature", fmt.Sprintf("sync reply for id %d does not verify under the server key", id)
 		}
 		for i := 0; i < mWindow; i++ {
@@ -471,7 +471,7 @@ func compareWeek(st *statsJSON, want map[glow.PublicKey]*weekDevice, tso uint32,
 		}
 		rec.Devices = append(rec.Devices, rd)
 	}
-	if !glow.Verify(srvKey, refWeekSigningBytes(rec), rec.Sig) {
+	if !refVerify(srvKey, refWeekSigningBytes(rec), rec.Sig) {
 		return "signature", fmt.Sprintf("week %d does not verify under the server key over the documented layout", tso)
 	}
 	return "", ""
